@@ -424,7 +424,13 @@ func TestC01_E2E(t *testing.T) {
 				sums = append(sums, uniqueSize)
 			}
 		}
-		if rapid.IntRange(0, 2).Draw(t, "withLimits") == 0 && len(sums) > 1 {
+		// a third of the scenarios concentrate on interruptions: they always carry a fault
+		// (at open under a forced pause, or at a data limit)
+		focusRestart := rapid.IntRange(0, 2).Draw(t, "focusOnRestarts") == 0
+		if focusRestart && !scn.forcePause && (len(sums) <= 1 || rapid.Bool().Draw(t, "interruptBeforeFirstBlock")) {
+			scn.forcePause = true
+		}
+		if (focusRestart && !scn.forcePause || rapid.IntRange(0, 2).Draw(t, "withLimits") == 0) && len(sums) > 1 {
 			nl := rapid.IntRange(1, 3).Draw(t, "nLimits")
 			last := uint64(0)
 			for i := 0; i < nl; i++ {
@@ -436,12 +442,12 @@ func TestC01_E2E(t *testing.T) {
 				scn.limits = append(scn.limits, l)
 				last = l
 			}
-			if len(scn.limits) > 0 && rapid.IntRange(0, 2).Draw(t, "fault") == 0 {
+			if len(scn.limits) > 0 && (focusRestart || rapid.IntRange(0, 2).Draw(t, "fault") == 0) {
 				scn.fault = rapid.SampledFrom(faultKinds(scn, sp)).Draw(t, "faultKind")
 				scn.faultAtLimit = rapid.IntRange(0, len(scn.limits)-1).Draw(t, "faultAt")
 			}
 		}
-		if scn.forcePause && scn.fault == "" && rapid.IntRange(0, 1).Draw(t, "faultAtOpen") == 0 {
+		if scn.forcePause && scn.fault == "" && (focusRestart || rapid.IntRange(0, 1).Draw(t, "faultAtOpen") == 0) {
 			scn.fault = rapid.SampledFrom(faultKinds(scn, sp)).Draw(t, "faultKindAtOpen")
 			scn.faultAtOpen = true
 		}
